@@ -564,25 +564,21 @@ Proof.
   intros base ref H1 H2. destruct (join_is_rfc3986 base ref H1) as [t [_ J]]; [rewrite H2; reflexivity|]. eauto.
 Qed.
 
-(* the checker of suite "join" accepts the model outside trigger C05q *)
-Theorem j_spec_ok_model : forall c, j_kf c = 0 -> j_spec_ok c (j_model c) = true.
+(* the checker of suite "join" accepts the model *)
+Theorem j_spec_ok_model : forall c, j_spec_ok c (j_model c) = true.
 Proof.
-  intros c K. unfold j_spec_ok.
-  destruct (negb (is_none (c_scheme (s_split (j_base c)))) && (hierarchical (j_base c) || same_document (j_ref c))) eqn:G;
-    [|reflexivity]. cbn [negb orb].
-  apply andb_true_iff in G. destruct G as [G1 G2]. apply negb_true_iff in G1.
-  assert (G3 : (Nat.leb (count_hash (j_base c)) 1 || negb (same_document (j_ref c))) = true).
-  { unfold j_kf in K. destruct (same_document (j_ref c)); [|apply orb_true_r]. rewrite andb_true_r in K. cbn [negb]. rewrite orb_false_r.
-    destruct (Nat.leb 2 (count_hash (j_base c))) eqn:E; [discriminate|]. apply Nat.leb_gt in E. apply Nat.leb_le. lia. }
-  destruct (join_is_rfc3986_gen _ _ G1 G2 G3) as [t [R J]]. unfold j_model. rewrite R, J. cbn [fst snd].
+  intro c. unfold j_spec_ok.
+  destruct (base_ok (j_base c) && (hierarchical (j_base c) || same_document (j_ref c))) eqn:G; [|reflexivity]. cbn [negb orb].
+  apply andb_true_iff in G. destruct G as [G1 G2].
+  destruct (join_is_rfc3986 _ _ G1 G2) as [t [R J]]. unfold j_model. rewrite R, J. cbn [fst snd].
   rewrite str_eqb_refl. reflexivity.
 Qed.
 
-(* the reason for trigger C05q: a base with two '#' *)
+(* why [base_ok] asks for at most one '#': on such an (illegal) base join cuts at the last '#' *)
 Lemma join_two_hashes_refuted : exists base ref t,
   is_none (c_scheme (s_split base)) = false /\ hierarchical base = true /\
-  rdf_resolve base ref = Some t /\ m_join base ref <> JOk t /\ j_kf {| j_base := base; j_ref := ref |} = 17.
+  rdf_resolve base ref = Some t /\ m_join base ref <> JOk t.
 Proof.
   exists [104;116;116;112;58;47;47;101;47;97;35;98;35;99], [35;102]. eexists.
-  split; [reflexivity|]. split; [reflexivity|]. split; [vm_compute; reflexivity|]. split; [vm_compute; discriminate|reflexivity].
+  split; [reflexivity|]. split; [reflexivity|]. split; [vm_compute; reflexivity|vm_compute; discriminate].
 Qed.
